@@ -53,7 +53,7 @@ fn main() {
             let n: u64 = match std::env::var("VERIF_C03_SESSIONS").ok().and_then(|s| s.parse().ok()) {
                 Some(n) => n,
                 None => {
-                    if tier == "thorough" { 60_000 } else { 1_500 }
+                    if tier == "thorough" { 36_000 } else { 1_500 }
                 }
             };
             c03::main_batch(tier, n)
